@@ -15,6 +15,12 @@ package sharedfile
 // Property C24: the handle is closed only when no reader holds it (refs == 0)
 // or by the explicit Close of the owner: every call of s.file.Close() outside
 // SharedFile.Close is a call site obligation `refs == 0`.
+// Pool governance (C24, "idle handles are eventually closed", "open pooled
+// handles never exceed capacity plus pinned"): a SharedFile gives up its pool
+// registration (Pool.Forget) only once it is closed for good; while it lives,
+// only the pool itself unregisters it (eviction). A Forget issued by a live
+// SharedFile outside its lock can undo the registration a concurrent Acquire
+// has just made (call site obligation `terminal` on every Forget).
 
 // The open function stored in the struct returns an open handle or an error.
 //gvc:func field:SharedFile.open
@@ -37,6 +43,7 @@ package sharedfile
 //gvc:  monitor s invariant pinned: s.refs > 0 && !s.closed ==> s.file != nil
 //gvc:  monitor s invariant latch: s.immediateClose ==> s.refs > 0 || s.file == nil
 //gvc:  ensures handed: err == nil ==> f != nil
+//gvc:  sink Forget requires terminal: s.closed
 //gvc:end
 
 //gvc:func (*SharedFile).Release
@@ -50,6 +57,7 @@ package sharedfile
 //gvc:  monitor s invariant pinned: s.refs > 0 && !s.closed ==> s.file != nil
 //gvc:  monitor s invariant latch: s.immediateClose ==> s.refs > 0 || s.file == nil
 //gvc:  sink Close requires unpinned: s.refs == 0
+//gvc:  sink Forget requires terminal: s.closed
 //gvc:end
 
 //gvc:func (*SharedFile).ReleaseNow
@@ -63,6 +71,7 @@ package sharedfile
 //gvc:  monitor s invariant pinned: s.refs > 0 && !s.closed ==> s.file != nil
 //gvc:  monitor s invariant latch: s.immediateClose ==> s.refs > 0 || s.file == nil
 //gvc:  sink Close requires unpinned: s.refs == 0
+//gvc:  sink Forget requires terminal: s.closed
 //gvc:end
 
 //gvc:func (*SharedFile).Close
@@ -75,6 +84,7 @@ package sharedfile
 //gvc:  monitor s invariant openfile: s.file != nil ==> s.file.#open
 //gvc:  monitor s invariant pinned: s.refs > 0 && !s.closed ==> s.file != nil
 //gvc:  monitor s invariant latch: s.immediateClose ==> s.refs > 0 || s.file == nil
+//gvc:  sink Forget requires terminal: s.closed
 //gvc:end
 
 //gvc:func (*SharedFile).Pinned
